@@ -26,12 +26,11 @@
 
 namespace nop {
 
-// An efficient reader type that supports runtime serialization from a byte
-// buffer. This reader improves efficiency by only performing bounds checks in
-// the Ensure() method. This type is safe for use with the library-provided
-// Deserializer types, which predicate serialization on the result of Ensure().
-// Use PedanticBufferReader if your use case interacts with the reader directly
-// and you need bounds checking in the Read() and Skip() methods.
+// A reader type that supports runtime serialization from a byte buffer. Read()
+// and Skip() are bounds checked: the library-provided Deserializer only calls
+// Ensure() before reading string and integral vector payloads, so every other
+// read of truncated or hostile input relies on these checks to stay inside the
+// buffer.
 class BufferReader {
  public:
   BufferReader() = default;
@@ -61,12 +60,18 @@ class BufferReader {
     const std::size_t length = end - begin;
     const std::size_t length_bytes = length * element_size;
 
+    if (length_bytes > (size_ - index_))
+      return ErrorStatus::ReadLimitReached;
+
     std::memcpy(begin, &buffer_[index_], length_bytes);
     index_ += length_bytes;
     return {};
   }
 
   Status<void> Skip(std::size_t padding_bytes) {
+    if (padding_bytes > (size_ - index_))
+      return ErrorStatus::ReadLimitReached;
+
     index_ += padding_bytes;
     return {};
   }
